@@ -259,6 +259,11 @@ def build(spec):
         m, r2c, span = make_mapping(spec, build_, regs, L)
         maps[build_], r2cs[build_], spans[build_] = m, r2c, span
         regions[build_] = region_coords(spec, build_, regs, r2c)
+        if spec.get("region_order"):
+            # the order in which a build's block lists its region keys carries no meaning: list them in a drawn order
+            keys_ = list(regions[build_])
+            random.Random(spec["region_order"][build_]).shuffle(keys_)
+            regions[build_] = {k: regions[build_][k] for k in keys_}
         # RefSeq intervals next to alignment gaps are blocked for variants (windows must be single-block)
         keys = sorted(r2c)
         for i in range(len(keys) - 1):
@@ -497,6 +502,8 @@ def db_specs(draw, kinds=KINDS_READS, max_sites=10, max_alleles=9, sv=True, pseu
             spec["collide"] = draw(st.integers(4, 6))
         if draw(st.integers(0, 2)) == 0:
             spec["unpadded"] = draw(st.integers(6, 8))
+    if draw(st.integers(0, 2)) == 0:
+        spec["region_order"] = {"hg19": draw(st.integers(0, 1000)), "hg38": draw(st.integers(0, 1000))}
     if draw(st.integers(0, 2)) == 0:
         spec["tandems"] = draw(st.lists(st.tuples(st.integers(0, 6), st.integers(0, 6)).map(list), min_size=1, max_size=2))
     return spec
